@@ -329,9 +329,12 @@ Proof.
   unfold U, wait_one. destruct (find_bg _ _); [|reflexivity].
   destruct (reap _) as [p racy]. destruct (status_wrong _); simpl; rewrite mark_racy_updates; reflexivity.
 Qed.
-Lemma upd_wait args st : U (cmd_wait args st) = s_updates st.
+Lemma upd_wait cfg args st : U (cmd_wait cfg args st) = s_updates st.
 Proof.
-  unfold cmd_wait. destruct args as [|a [|b r]]; [apply upd_wait_all|apply upd_wait_one|reflexivity].
+  unfold cmd_wait, timed_out_state. destruct args as [|a [|b r]]; [| |reflexivity].
+  - destruct (wait_times_out _ _); [unfold U; simpl; apply mark_racy_updates|apply upd_wait_all].
+  - destruct (find_bg _ _); [|apply upd_wait_one].
+    destruct (wait_times_out _ _); [unfold U; simpl; apply mark_racy_updates|apply upd_wait_one].
 Qed.
 Lemma upd_skip args st : U (cmd_skip args st) = s_updates st.
 Proof.
@@ -355,7 +358,7 @@ Proof.
     destruct (can_start _ _ _); [simpl; rewrite mark_racy_updates; reflexivity|].
     destruct neg; reflexivity.
   - destruct (can_start _ _ _).
-    + destruct (Bool.eqb _ _); simpl; rewrite mark_racy_updates; reflexivity.
+    + destruct (meets _ _); simpl; rewrite mark_racy_updates; reflexivity.
     + destruct neg; reflexivity.
 Qed.
 Lemma upd_custom cfg k neg args st : U (cmd_custom cfg k neg args st) = s_updates st.
@@ -484,7 +487,7 @@ Definition with_update (cfg : config) (u : bool) : config :=
   {| c_continue := c_continue cfg; c_explicit_exec := c_explicit_exec cfg; c_unique := c_unique cfg;
      c_update := u; c_host_conds := c_host_conds cfg; c_custom_cond := c_custom_cond cfg;
      c_cmds := c_cmds cfg; c_main_cmds := c_main_cmds cfg; c_helper := c_helper cfg;
-     c_helper_dir := c_helper_dir cfg; c_watch := c_watch cfg |}.
+     c_helper_dir := c_helper_dir cfg; c_watch := c_watch cfg; c_deadline := c_deadline cfg; c_cancelled := c_cancelled cfg |}.
 
 Definition representable (c : bytes) : Prop := (c = [] \/ last_byte c = Some NL) /\ needs_quote c = false.
 
@@ -508,7 +511,7 @@ Definition text (ls : list string) : bytes := List.concat (List.map (fun l => b 
 Definition cfg0 : config :=
   {| c_continue := false; c_explicit_exec := false; c_unique := false; c_update := true;
      c_host_conds := []; c_custom_cond := None; c_cmds := []; c_main_cmds := [];
-     c_helper := b "tshelper"; c_helper_dir := b "/h"; c_watch := [] |}.
+     c_helper := b "tshelper"; c_helper_dir := b "/h"; c_watch := []; c_deadline := false; c_cancelled := false |}.
 Definition env0 : list (bytes * bytes) := [(b "WORK", b "/w"); (b "PATH", b "/h")].
 Definition work : bytes := b "/w".
 Definition gname : bytes := b "g.txt".
@@ -580,4 +583,83 @@ Proof.
     destruct (bytes_eqb n Examples.gname); [|discriminate].
     intros Hc'. inversion Hc'; subst. vm_compute. repeat split; auto. }
   destruct (H Hr) as [Hp _]. rewrite Examples.ex_f6_second in Hp. discriminate.
+Qed.
+
+(* ---- no update recorded: the file is not written, whatever its text (canonical or not) *)
+
+Theorem no_update_no_write cfg work env file :
+  s_updates (r_final (run_file cfg work env file)) = [] ->
+  f_change (run_file_full cfg work env file) = Untouched
+  /\ f_run (run_file_full cfg work env file) = run_file cfg work env file.
+Proof.
+  intros Hu. unfold run_file_full, run_file in *. simpl. rewrite Hu. simpl. split; reflexivity.
+Qed.
+
+(* ... and conversely a file is only ever written when some cmp recorded an update *)
+Theorem write_only_on_update cfg work env file d :
+  f_change (run_file_full cfg work env file) = Rewritten d ->
+  s_updates (r_final (run_file cfg work env file)) <> [].
+Proof.
+  unfold run_file_full, run_file. simpl. intros H Hu. rewrite Hu in H. discriminate.
+Qed.
+
+(* ---- what IS written is always the canonical text of the updated archive: re-parsing and
+   re-formatting it changes nothing, whatever the spelling of the file was before *)
+Theorem update_written_canonical file U d :
+  (forall n d0 c, In (n, d0) (files (parse file)) -> assoc_get U n = Some c -> c = [] \/ last_byte c = Some NL) ->
+  change_of (parse file) U = Rewritten d -> format (parse d) = d.
+Proof.
+  intros Hrep. unfold change_of. destruct U as [|u0 U']; [discriminate|].
+  destruct (apply_updates (parse file) (u0 :: U')) as [a'|] eqn:Ha; [|discriminate].
+  intros H. inversion H; subst. rewrite (update_reparses_file file (u0 :: U') a' Hrep Ha). reflexivity.
+Qed.
+
+Module NonCanonical.
+Import String.
+Local Open Scope string_scope.
+Local Open Scope list_scope.
+Import Examples.
+(* a script file that is not in Format's canonical form: a marker line with extra blanks, a
+   marker line ending in CR LF, no final newline *)
+Definition nc := b ("exec tshelper echo new" ++ nl ++ "cmp stdout a" ++ nl
+                     ++ "-- a --" ++ nl ++ "new" ++ nl ++ "--  c  --" ++ String (Ascii.ascii_of_nat 13) nl ++ "keep").
+Example ex_nc_not_canonical : bytes_eqb (format (parse nc)) nc = false.
+Proof. vm_compute. reflexivity. Qed.
+(* nothing mismatches: it is left alone, byte for byte (the file is not written) *)
+Example ex_nc_untouched :
+  f_change (run_file_full cfg0 work env0 nc) = Untouched
+  /\ r_verdict (f_run (run_file_full cfg0 work env0 nc)) = Pass.
+Proof. vm_compute. split; reflexivity. Qed.
+(* one entry mismatches: the whole archive is written in canonical form, so the spelling of
+   the marker line of the untouched entry c and its missing final newline do not survive *)
+Definition nc1 := b ("exec tshelper echo newer" ++ nl ++ "cmp stdout a" ++ nl
+                     ++ "-- a --" ++ nl ++ "new" ++ nl ++ "--  c  --" ++ String (Ascii.ascii_of_nat 13) nl ++ "keep").
+Definition nc1_tail := b ("--  c  --" ++ String (Ascii.ascii_of_nat 13) nl ++ "keep").
+Definition nc1_written := b ("exec tshelper echo newer" ++ nl ++ "cmp stdout a" ++ nl
+                     ++ "-- a --" ++ nl ++ "newer" ++ nl ++ "-- c --" ++ nl ++ "keep" ++ nl).
+Example ex_nc1 :
+  f_change (run_file_full cfg0 work env0 nc1) = Rewritten nc1_written
+  /\ s_updates (r_final (f_run (run_file_full cfg0 work env0 nc1))) = [(b "a", b ("newer" ++ nl))]
+  /\ files (parse nc1_written) = [(b "a", b ("newer" ++ nl)); (b "c", b ("keep" ++ nl))]
+  /\ files (parse nc1) = [(b "a", b ("new" ++ nl)); (b "c", b ("keep" ++ nl))].
+Proof. vm_compute. repeat split; reflexivity. Qed.
+Definition upd1 : list (bytes * bytes) := [(b "a", b ("newer" ++ nl))].
+Definition fs1 : list (bytes * bytes) := [(b "a", b ("new" ++ nl))].
+End NonCanonical.
+
+(* byte-for-byte survival of the untouched entries' text does NOT hold of applyScriptUpdates:
+   the parsed entries are unchanged (update_frame), their spelling in the file is normalised *)
+Theorem update_keeps_untouched_bytes_refuted : ~ update_keeps_untouched_bytes_statement.
+Proof.
+  intros H.
+  specialize (H NonCanonical.nc1 NonCanonical.upd1
+                NonCanonical.nc1_written NonCanonical.nc1_tail).
+  assert (has_suffix NonCanonical.nc1_tail NonCanonical.nc1_written = false) as E by (vm_compute; reflexivity).
+  rewrite H in E; [discriminate| |].
+  - vm_compute. reflexivity.
+  - exists (firstn (length NonCanonical.nc1 - length NonCanonical.nc1_tail) NonCanonical.nc1),
+           NonCanonical.fs1.
+    split; [vm_compute; reflexivity|]. split; [vm_compute; reflexivity|].
+    split; [vm_compute; reflexivity|]. split; [vm_compute; discriminate|].
+    intros n d Hin. vm_compute in Hin. destruct Hin as [Hin|[]]. inversion Hin; subst. vm_compute. reflexivity.
 Qed.
